@@ -38,8 +38,8 @@ type zzSeq struct {
 	// tallies for C20
 	lookups, hitsWant, loads uint64
 	// C07: at the moment of every automatic removal the handler checks the justification
-	unjustified bool
-	everOver    bool
+	hadOverflow bool
+	maximum     uint64
 	tag         string
 }
 
@@ -82,7 +82,7 @@ func (s *zzSeq) modelWrite(k, v int) {
 		if !oldPresent {
 			cause = CauseExpiration
 		}
-		s.expect = append(s.expect, zzEvent{k, old.val, cause})
+		s.expect = append(s.expect, zzEvent{key: k, val: old.val, cause: cause, w: old.w})
 	}
 	n := zzME{exists: true, val: v, w: s.weight(k, v), exp: zzMaxI64, ref: zzMaxI64}
 	if s.withExp() {
@@ -124,7 +124,7 @@ func (s *zzSeq) modelRemove(k int) {
 		if !s.present(k) {
 			cause = CauseExpiration
 		}
-		s.expect = append(s.expect, zzEvent{k, old.val, cause})
+		s.expect = append(s.expect, zzEvent{key: k, val: old.val, cause: cause, w: old.w})
 	}
 	s.m[k] = zzME{}
 }
@@ -133,7 +133,7 @@ func (s *zzSeq) modelRemove(k int) {
 // physically drop it (reported as Expiration) — sanctioned, invisible in the abstract map.
 func (s *zzSeq) modelMayDropExpired(k int) {
 	if s.m[k].exists && !s.present(k) {
-		s.optional = append(s.optional, zzEvent{k, s.m[k].val, CauseExpiration})
+		s.optional = append(s.optional, zzEvent{key: k, val: s.m[k].val, cause: CauseExpiration})
 	}
 }
 
@@ -160,7 +160,16 @@ func (s *zzSeq) syncEvents(tag string) {
 		matched := false
 		for i := range s.expect {
 			if s.expect[i].key == e.key && s.expect[i].val == e.val {
-				vAssert(s.expect[i].cause == e.cause, tag+".event.cause")
+				w := uint64(s.expect[i].w)
+				if (s.expect[i].cause == CauseInvalidation || s.expect[i].cause == CauseExpiration) && e.cause == CauseOverflow && s.env.cfg.bound != 0 &&
+					(s.modelTotal()+w > s.maximum || w > s.maximum) {
+					// maintenance running inside the operation evicted the entry before the explicit removal
+					// reached it: still exactly one event for the value, with a truthful cause (an entry that is
+					// both expired and over the size bound may be reported with either cause)
+					s.hadOverflow = true
+				} else {
+					vAssert(s.expect[i].cause == e.cause, tag+".event.cause")
+				}
 				s.expect = append(s.expect[:i:i], s.expect[i+1:]...)
 				matched = true
 				break
@@ -180,12 +189,34 @@ func (s *zzSeq) syncEvents(tag string) {
 		}
 		if e.cause == CauseOverflow {
 			vAssert(s.env.cfg.bound != 0, tag+".event.overflow_without_bound")
+			vAssert(s.overflowJustified(e.key), tag+".event.overflow_justified")
+			vAssert(me.w != 0, tag+".event.zero_weight_evicted")
+			s.hadOverflow = true
 		}
 		s.reported = append(s.reported, e)
 		*me = zzME{}
 	}
 	vAssert(len(s.expect) == 0, tag+".event.missing")
 	s.expect = s.expect[:0]
+}
+
+// modelTotal is the total weight of the entries physically in the cache (count when unweighted).
+func (s *zzSeq) modelTotal() uint64 {
+	var t uint64
+	for k := 1; k <= zzNK; k++ {
+		if s.m[k].exists {
+			t += uint64(s.m[k].w)
+		}
+	}
+	return t
+}
+
+// overflowJustified: total weight exceeds the maximum at this moment, or the entry alone exceeds it.
+func (s *zzSeq) overflowJustified(k int) bool {
+	if s.env.cfg.bound == 0 {
+		return false
+	}
+	return s.modelTotal() > s.maximum || uint64(s.m[k].w) > s.maximum
 }
 
 // syncPlain checks that OnDeletion received exactly the events OnAtomicDeletion received (as multisets),
@@ -563,10 +594,19 @@ var zzOpNames = []string{"Set", "SetIfAbsent", "GetIfPresent", "GetEntry", "GetE
 	"ComputeIfPresentInvalidate", "ComputeIfPresentCancel", "Invalidate", "InvalidateAll", "SetExpiresAfter",
 	"SetRefreshableAfter", "GetLoadOK", "GetLoadErr", "GetLoadNotFound", "Iterate", "CleanUp"}
 
-func zzNewSeq(cfg zzCfg, tag string) *zzSeq {
+func zzNewSeq(cfg zzCfg, tag string) *zzSeq { return zzNewSeqD(cfg, tag, false) }
+
+// zzNewSeqD: with concrete=true the calculator durations are fixed constants (2 s create, 3 s update,
+// 1.5 s read; refresh 1 s) so that the timer-wheel arithmetic stays concrete.
+func zzNewSeqD(cfg zzCfg, tag string, concrete bool) *zzSeq {
 	s := &zzSeq{tag: tag}
-	s.dC, s.dU, s.dR = zzDur("dCreate"), zzDur("dUpdate"), zzDur("dRead")
-	s.rC, s.rU = zzDur("rCreate"), zzDur("rUpdate")
+	if concrete {
+		s.dC, s.dU, s.dR = 2_000_000_000, 3_000_000_000, 1_500_000_000
+		s.rC, s.rU = 1_000_000_000, 1_000_000_000
+	} else {
+		s.dC, s.dU, s.dR = zzDur("dCreate"), zzDur("dUpdate"), zzDur("dRead")
+		s.rC, s.rU = zzDur("rCreate"), zzDur("rUpdate")
+	}
 	if cfg.expiry == zzExpCustom {
 		cfg.expC = &zzCustomExpiry{create: s.dC, update: s.dU, read: s.dR}
 	} else {
@@ -578,6 +618,7 @@ func zzNewSeq(cfg zzCfg, tag string) *zzSeq {
 		cfg.refD = s.rC
 	}
 	s.env = zzNewEnv(cfg)
+	s.maximum = uint64(cfg.max)
 	return s
 }
 
